@@ -89,13 +89,18 @@ def _t01_regen(repo=None):
            "differs from the baseline for: %s" % (repo, ntr, len(cur) - ntr, ", ".join(changed) or "none")
     if gen_broken:
         lines.append("the generated file does not compile (a defect of harness/trans, not of the tree): " + gen_broken)
-    for k, msg in failed.items():
+    if not cur and failed:
+        lines.append("no equality can be checked against this tree (%d proofs fail for lack of the generated definitions)" % len(failed))
+        failed_listed = {}
+    else:
+        failed_listed = failed
+    for k, msg in failed_listed.items():
         n = by_coq.get(k, k)
         own = ",".join(base.get(n, {}).get("owners", []))
         lines.append("EQUALITY NO LONGER CHECKS: %s [owner %s] (Proofs/TransEq_%s.v %s)" % (n, own or "-", k, msg))
         d = tc.diff_function(n, cur, base) if cur else ""
         lines.append(d[:900] if d else "(the generated definition is the baseline's: a callee or the model changed)")
-    for k in sorted(blocked):
+    for k in sorted(blocked if cur else []):
         lines.append("NOT ATTEMPTED (uses a failed equality): %s" % by_coq.get(k, k))
     still = [n for n in changed if cur.get(n, {}).get("coq") not in failed and cur.get(n, {}).get("coq") not in blocked
              and cur.get(n, {}).get("status") == "translated" and n in base]
